@@ -126,12 +126,12 @@ prop('C04',
            "position-code length classes incl. 1, 4096 and matches overlapping the write cursor or reaching into the space-filled window). Each input is decoded by an "
            "independent reference decoder (4 KiB space-filled window, 314-symbol adaptive Huffman, bits past the end read as 0, stop test after each code, error at "
            "the 65222nd update) and by the library twice: through GetInternalBuffer until it reports 0 and through GetData with a cyclic schedule of sizes from "
-           "{1,2,3,61,62,63,4033,4034,4035,4095,4096,4097,10000,random}; one case in six also extracts the stream as an LZH member of a reference-encoded VOL. "
+           "{1,2,3,61,62,63,4033,4034,4035,4095,4096,4097,10000,random}; in half the cases a third decoder is drained through BOTH interfaces interleaved in one session (2..6-step cyclic schedule of GetInternalBuffer / GetData(k), k incl. 96,1000,3000,4096,8192: copies adding up to multiples of the window followed by the internal interface); one case in six also extracts the stream as an LZH member of a reference-encoded VOL. "
            "Oracle: outputs equal the reference; beyond capacity the library must throw and what it delivered must be a prefix of the reference output; termination "
-           "by output limit + watchdog. Sweep: 58 lengths x 14 boundary distances; a 2600-token window-wrapping stream under every drain size; every prefix of an "
+           "by output limit + watchdog. Sweep: 58 lengths x 14 boundary distances; a 2600-token window-wrapping stream under every drain size and 28 mixed-interface schedules ({4096},{1000,3000,96},{4095},{4097},{1},{2048,2048},{8192},{61,4035},{4034,62} copies x internal call before/after/twice; 4096 single-byte copies then internal); every prefix of an "
            "encoded stream; four capacity-crossing inputs and the exact capacity edge. Non-trivial = output > 4096 bytes (window wrap) or >= 1 match; distinct = hash of input."),
      sweep_what="58 match lengths x 14 distances; all 13 drain sizes + mixed + internal + VOL path on a wrapping stream; all prefixes of one stream; capacity-crossing inputs",
-     assumptions=["mixing both drain interfaces within one decoder session is not asserted", "for the empty input either the reference output or no output is accepted"],
+     assumptions=["sessions mixing both drain interfaces are asserted too: both drain the same queue (HuffLZ.cpp: two drain paths over the same indices), the stream has ended when the internal-buffer call reports 0 or a copy comes back short", "for the empty input either the reference output or no output is accepted"],
      title="LZH decompression equals the reference decoder, however it is drained",
      level_text=("Differential testing against an independent decoder and encoder over generated byte strings and token streams, both drain interfaces, under ASan/UBSan; "
                  "exploration with directed boundary sweeps."),
@@ -150,9 +150,9 @@ prop('C01',
            "variants; inputs unmodified. One case in eight lists two inputs equal ignoring case (same or different directories), one in eight lets the output path name an input "
            "up to letter case and one leading './' (plain and directory-qualified spellings, existing and non-existing targets): CreateArchive must throw and every pre-existing "
            "file must be byte-identical afterwards / no new output may exist. Sweep: empty set; all 16 (size mod 4 x name-table mod 4) residue pairs x 1..3 files x small/128 KiB "
-           "x 4 output spellings; every size in [131070,131074] and [262142,262146]. Non-trivial = >=2 members of which >=1 non-empty, or any refusal case; distinct = hash of "
+           "x 4 output spellings; every size in [131070,131074] and [262142,262146]; sets of 17, 64 and 150 members whose 2-3 character names are built systematically from {a,B,_,z,[,Z,0,^,.,`,A,-,b,~,{,@} so that every ordering corner (prefix, case, punctuation between the letter cases) occurs between neighbours. Non-trivial = >=2 members of which >=1 non-empty, or any refusal case; distinct = hash of "
            "names, sizes and spellings."),
-     sweep_what="all residue pairs of (file size mod 4, name table mod 4) with 1-3 files, sizes around one and two 128 KiB copy chunks, empty set",
+     sweep_what="all residue pairs of (file size mod 4, name table mod 4) with 1-3 files, sizes around one and two 128 KiB copy chunks, empty set, 17/64/150-member sets with systematic punctuation names",
      assumptions=["Linux (case-sensitive) file system: an output differing from an input only in case is a different file, yet must still be refused per the statement", "names are ASCII"],
      title="VOL pack, reopen, extract returns exactly the files that went in",
      level_text=("Round-trip and refusal properties over generated file sets with an independent ordering model and byte-exact comparison, under ASan/UBSan; exploration."),
@@ -183,17 +183,17 @@ prop('C05',
      quick=dict(sweep=True, pbt=(20000, 400, 10), fuzz=(100000, 700, 5)),
      thorough=dict(sweep=True, pbt=(300000, 600, 10), fuzz=(3000000, 900, 6), stage_timeout=3400),
      floor=dict(quick=12000, thorough=300000), alloc_cap_mb=128,
-     rule=("Sweep over 5 reference-encoded VOL seeds (empty, 1 member, 4 members incl. zero-length and LZH, unused trailing slots, extra name padding), 3 CLM seeds and 6 WAV seeds: "
+     rule=("Sweep over 6 reference-encoded VOL seeds (empty, 1 member, 4 members incl. zero-length and LZH, unused trailing slots, extra name padding, LZH member last), 3 CLM seeds and 6 WAV seeds: "
            "every proper prefix; every 32-bit field (section lengths, name-table length, every index field, VBLK headers; CLM version/format/count/name/offset/length; RIFF and chunk "
            "lengths) x {0,1,2,13,14,15,v-1,v+1,v^2^31,file size +-1,file size-8,2^31-1,2^31,0xFFFFFFF8,0xFFFFFFFF,...}; coordinated pairs (index length +1..28, name table shortened "
            "by 1..n, NUL terminators removed so that entries outnumber names). pbt/fuzz: tape = kind + seed + 1..3 mutations (field boundary value, truncate, byte, insert, delete, "
            "append) + up to 24 call records (GetCount, GetName, GetSize, GetCompressionCode, GetIndex, Contains, OpenStream+read, ExtractFile; index 0..8, 2^32-1, 2^64-1..) followed by "
-           "the full call table for indices 0..7 twice; libFuzzer also mutates raw archive/WAV bytes from the seed corpus. Oracle: no sanitizer report, no reproduced hang, only "
+           "the full call table for indices 0..7 twice plus extract/extract/stream/stream/extract on each index in a row; libFuzzer also mutates raw archive/WAV bytes from the seed corpus. Oracle: no sanitizer report, no reproduced hang, only "
            "std::exception; every call outcome on the long-lived object equals the outcome of the same call on a fresh object (failed calls leave it usable); indices >= count refused; "
            "a delivered member stream/extraction is exactly file[offset+8,+VBLK length) (CLM: [dataOffset,+dataLength)) per the harness' own parse, and a recorded extent outside the "
-           "file is never delivered; WAV bytes given to CLM creation end in an error or a re-openable archive. Non-trivial = archive opens and a per-member call succeeds after "
+           "file is never delivered - for compressed members too (extraction must be refused, not run on the bytes that are left); WAV bytes given to CLM creation end in an error or a re-openable archive. Non-trivial = archive opens and a per-member call succeeds after "
            "another failed, or a corruption rejected beyond the first tag check; distinct = hash of bytes and calls."),
-     sweep_what="all prefixes and (field x boundary value) substitutions of 5 VOL + 3 CLM + 6 WAV seeds, coordinated index/name-table corruptions",
+     sweep_what="all prefixes and (field x boundary value) substitutions of 6 VOL + 3 CLM + 6 WAV seeds, coordinated index/name-table corruptions",
      assumptions=["allocation requests above 128 MiB fail with std::bad_alloc (memory-limited host)", "ExtractAllFiles is only exercised when the harness' own parse shows every member name to be harmless"],
      title="VOL/CLM readers and WAV intake are safe on arbitrary bytes",
      level_text=("Fault-injection sweeps plus structure-aware and raw-byte fuzzing with differential (fresh-object) and extent oracles under ASan/UBSan with watchdog; exploration."),
@@ -212,8 +212,8 @@ prop('C03',
            "returns exactly the data bytes; ExtractFile/ExtractAllFiles output parsed by a strict WAV parser (RIFF size, one 18-byte fmt with the common format, one data chunk with "
            "exactly the bytes, nothing after). Four modes in ten are negative: 9-character name, two names equal ignoring case, one file with a different format, non-RIFF/non-WAVE/"
            "truncated/size-mismatched/fmt-less file - creation must throw and leave inputs untouched. Sweep: 8 chunk placements x fmt16/18 x 5 data lengths x 1..3 tracks; empty set; "
-           "name lengths 7..10. Non-trivial = >=2 tracks with a chunk before 'fmt ' or after 'data' somewhere, or any refusal case."),
-     sweep_what="all 8 combinations of extra-chunk placement x fmt size x data lengths {0,1,2,5,4096} x 1..3 tracks; name lengths 7..10; empty set",
+           "name lengths 7..10; audio data of 131071..131073, 262143..262145 and 393216 bytes (one to three 128 KiB copy chunks) followed by a second track, with and without a chunk after the data. Non-trivial = >=2 tracks with a chunk before 'fmt ' or after 'data' somewhere, or any refusal case."),
+     sweep_what="all 8 combinations of extra-chunk placement x fmt size x data lengths {0,1,2,5,4096} x 1..3 tracks; name lengths 7..10; empty set; data lengths around 1-3 copy chunks of 128 KiB",
      assumptions=["extra chunks are even-sized (the statement's domain)", "base names are ASCII letters, digits, underscore"],
      title="CLM pack, reopen, extract preserves every track's audio data and format",
      level_text=("Round-trip property testing over generated WAV sets with independent CLM/WAV builders and strict parsers, including negative inputs, under ASan/UBSan; exploration."),
@@ -246,7 +246,7 @@ prop('C20',
      thorough=dict(sweep=True, pbt=(60000, 200, 10), stage_timeout=3400),
      floor=dict(quick=15000, thorough=60000), alloc_cap_mb=64, case_timeout=600,
      rule=("Every case is at or just beyond an on-disk limit. Sweep (exhaustive for the layer matrix): ArtFile::Write of a frame with every 7-bit layer count 0..127 against every layer-list "
-           "length 0..130 (16768 combinations: must throw iff they differ, else re-read equal); size-prefixed writes of 127/128/255/256/32767/32768/65535/65536 elements with i8/u8/i16/u16/u32 "
+           "length 0..130 (16768 combinations: must throw iff they differ, else re-read equal) plus list lengths count+128/256/384/512/1024/65536 for every count (a narrowed comparison would pass them); size-prefixed writes of 127/128/255/256/32767/32768/65535/65536 elements with i8/u8/i16/u16/u32 "
            "prefixes; CLM names of 7..10 characters; VolFile::CreateArchive with sparse members of 2^31, 2^31+1, 2^32-1, 2^32, 2^32+5 bytes among small ones and member sets whose block offsets "
            "cross 2^32 although every member fits (4 x 1.5 GiB; 3 x (2^31-1); ...), destination absent and pre-existing; ClmFile::CreateArchive with sparse WAVs whose data offsets cross 2^32; "
            "thorough additionally really writes and re-reads a member of 2^31-1 bytes. The must-refuse archive calls run in a forked child under RLIMIT_FSIZE=1 MiB whose SIGXFSZ handler exits "
@@ -266,9 +266,9 @@ prop('C06',
      thorough=dict(sweep=True, pbt=(600000, 900, 11), fuzz=(3000000, 900, 5), stage_timeout=3400),
      floor=dict(quick=20000, thorough=500000), alloc_cap_mb=256,
      rule=("Logical maps decoded from a tape and serialised by an independent encoder: log2 width 0..10, height 0..(tiles <= 65536; thorough 2^20), tile words random / multiplicative / low-half, "
-           "arbitrary clip rectangle, 0..8 tileset sources (names 0..8 bytes, empty names carry no tile count), 0..40 or 2048 mappings, 0..4 terrain types (264 bytes), 0..6 tile groups incl. zero "
-           "area with names 0..20, saved-game flag from {0,1,2,-1,256,INT_MIN,random}, version tags >= 0x1010 incl. 0x80000000/0xFFFFFFFF, arbitrary 'unknown' group-header word, optional trailing "
-           "bytes; read through MemoryReader or a file. Oracle: every public field/getter equals the logical map; Write == consumed input bytes with flag normalised and the unknown word masked == "
+           "arbitrary clip rectangle, 0..8 tileset sources (names 0..8 bytes, empty names carry no tile count), 0..40 or 2048 mappings (all four 16-bit fields arbitrary in half the maps), 0..4 terrain types (264 bytes), 0..6 tile groups incl. zero "
+           "area and up to 257 tiles wide with names 0..20, saved-game flag from {0,1,2,-1,256,INT_MIN,random}, version tags >= 0x1010 incl. 0x80000000/0xFFFFFFFF, arbitrary 'unknown' group-header word, optional trailing "
+           "bytes; read through MemoryReader or a file, written through a memory writer or Map::Write(filename). Oracle: every public field/getter equals the logical map; Write == consumed input bytes with flag normalised and the unknown word masked == "
            "reference serialisation; Write(Read(w)) == w. Then 0..30 edits (SetCellType with all 32 types / SetLavaPossible on in-range coordinates of maps >= 32 wide, SetVersionTag incl. values "
            "below 0x1010, TrimTilesetSources) applied to library object and model: fields equal, Write == reference serialisation of the edited model, re-read equal and byte-stable, or an ordinary "
            "error exactly when the tag was set below 0x1010. Sweep: 11 widths x 4 heights x 6 table-shape variants with a 12-edit script. Non-trivial = >=1 tile and >=1 non-empty table."),
@@ -329,8 +329,8 @@ prop('C08',
            "meaningful bytes. Oracle: the reader's fields equal the logical bitmap; Validate() passes; width >= 0; pixels.size() == pitch(w,depth)*|h| computed independently; palette <= 2^depth; "
            "WriteIndexed output parsed by a strict independent parser (headers describe the file, all row padding zero) and read back with the same width, signed height, depth, every palette entry "
            "at its index and every meaningful pixel byte preserved; factory objects round-trip to operator== equality; InvertScanLines once reverses the rows exactly and negates the height, twice "
-           "restores an equal object. Sweep: 3 depths x widths 0..70 x heights -3..3 x 3 palette modes for both families. Non-trivial = >=2 rows with >=1 padding byte, or a partial palette."),
-     sweep_what="every (depth, width 0..70, height -3..3) x {full, 1-entry, explicit-full} palette for encoder-made files and the three factory overloads",
+           "restores an equal object. Sweep: 3 depths x widths 0..70 x heights -3..3 x 3 palette modes for both families; wrap32 family (also 1/16 of pbt cases): widths 2^29*k+w0 at 8 bpp and 2^30+w0 at 4 bpp (row bit length >= 2^32) carrying exactly the pixel bytes a row length computed modulo 2^32 would ask for - an ordinary error, or an accepted bitmap obeying all laws above. Non-trivial = >=2 rows with >=1 padding byte, or a partial palette."),
+     sweep_what="every (depth, width 0..70, height -3..3) x {full, 1-entry, explicit-full} palette for encoder-made files and the three factory overloads; 312 wrap32 headers",
      assumptions=["compression field 0 (the reader's domain)", "palette bytes are compared in file order; the library's Color members are treated as the four raw bytes"],
      title="Indexed bitmaps read back valid and round-trip pixels, palette, geometry",
      level_text=("Round-trip and validity properties over generated bitmaps with an independent encoder/strict parser, under ASan/UBSan; complete for widths 0..70 at small heights, sampled beyond."),
@@ -341,15 +341,15 @@ prop('C09',
      quick=dict(sweep=True, pbt=(80000, 200, 10), fuzz=(160000, 200, 4)),
      thorough=dict(sweep=True, pbt=(500000, 200, 11), fuzz=(1500000, 200, 4), stage_timeout=3400),
      floor=dict(quick=15000, thorough=500000), alloc_cap_mb=128,
-     rule=("Pictures decoded from a tape: height 32*k (k 0..8, thorough ..64), 256 pseudo-random colours (one in six grey so red==blue), pseudo-random pixels, built with the factory in BOTH scan-line "
+     rule=("Pictures decoded from a tape: height 32*k (k 0..8 and {31,32,33,47,63,64,65,100}, thorough ..64), 256 pseudo-random colours (one in six grey so red==blue), pseudo-random pixels, built with the factory in BOTH scan-line "
            "orientations. Oracle per picture and orientation: WriteCustomTileset bytes == an independent description of the format (PBMP + 1068+32h, head 0x14 {2,32,h,8,8}, PPAL 1048, head 4 {1}, "
            "data 1024 with blue-green-red-alpha entries, data 32h with rows top-down) and identical for both orientations; the caller's bitmap is unchanged; ReadTileset of those bytes gives the same "
            "logical rows and colours in top-down orientation; ReadTileset of the picture stored as a standard bitmap gives the same picture in the stored orientation. Signature cases: random "
            "prefixes / PBMP / one-bit neighbours / 'BM' at stream positions 0 and > 0: PeekIsCustomTileset <=> the next four bytes are PBMP and Position() unchanged (also when it throws on a "
-           "short stream). Violating pictures (depth 1/4, width != 32, height not a multiple of 32) are refused by save (nothing written) and by load; custom byte strings with one validated header "
-           "field replaced by boundary values are refused. Sweep: heights 0..12 tiles (thorough 0..64); all 32 one-bit neighbours of PBMP at two positions; 18 header fields x 20 values. "
+           "short stream). Violating pictures (depth 1/4, width != 32, height not a multiple of 32, depth/width pairs that still give 32-byte rows - 4 bit x 63..64, 1 bit x 249..256 -, arbitrary non-tileset (depth,width,height) triples) are refused by save (nothing written) and by load; custom byte strings with one validated header "
+           "field replaced by boundary values are refused. Sweep: heights 0..12 and {31,32,33,40,63,64,65,75,96,100} tiles (thorough 0..130); all 32 one-bit neighbours of PBMP at two positions; 18 header fields x 20 values. "
            "Non-trivial = height >= 64 with red != blue somewhere, every signature/violating/perturbed case."),
-     sweep_what="heights 0..12 (thorough ..64) tiles x both orientations; all one-bit neighbours of the signature; every header field x 20 boundary values; violating pictures",
+     sweep_what="heights 0..12 + 10 tall ones (thorough ..130) tiles x both orientations; all one-bit neighbours of the signature; every header field x 20 boundary values; violating pictures",
      assumptions=["no game file is available offline: the PBMP total length 1068+32h is pinned from the format's constants as this tree writes it", "the flags field and depth values whose low 16 bits are 8 are not claimed either way"],
      title="Tilesets load to the same picture from custom and standard formats",
      level_text=("Round-trip/differential testing of both tileset encodings against an independent encoder of the custom format, over generated pictures; exploration."),
@@ -367,7 +367,7 @@ prop('C10',
            "cross-field rules evaluated in 64-bit arithmetic; Write leaves the source object unchanged; written bytes == input bytes when the palette headers are canonical (else == canonical "
            "re-encoding); Read(Write(a)) equal; second write byte-identical. One case in eight feeds Read a violating input (palette index >= count, wrong scan line, width 0xFFFFFFFD..FF with "
            "wrapped scan line 0, header frame/layer totals off by one, palette lengths not adding up) and one in eight gives Write a violating structure (index == count, wrong scan line, width "
-           "0xFFFFFFFE/scan line 0, layer list longer than its count): both must throw. Sweep: 4 flag combinations x every layer count 0..127 inside a three-frame animation; palettes 0..3 x "
+           "0xFFFFFFFE/scan line 0, layer list longer than its count by 1, 2, 128, 256 or 512): both must throw. Sweep: 4 flag combinations x every layer count 0..127 inside a three-frame animation; palettes 0..3 x "
            "images 0..2 x animations 0..2 with every violating variant. Non-trivial = >=1 frame with >=1 layer and >=1 optional flag set, and every violating case."),
      sweep_what="flag combinations x layer counts 0..127; empty-table combinations with all violating read/write variants",
      assumptions=["the trivially-true 'unknown count' check is not asserted"],
